@@ -229,6 +229,12 @@ impl Check for C17 {
         // in a quarter of the episodes the unfinished builders were observed (size query, scratch
         // write) between configuration calls before the finished builder is written
         let probes = if ar.chance(1, 4) { ar.next_u64() | 1 } else { 0 };
+        if probes != 0 {
+            ctx.stats.fault("observation-probes", 1);
+        }
+        if !tape.is_empty() {
+            ctx.stats.fault("call-history", 1);
+        }
         let found = realise_probed(&plan, hash_key, probes, |c| {
             let n_guess = match guarded_size(c) {
                 Some(WRes::Ok(n)) => n,
